@@ -80,6 +80,14 @@ func genC11M(t *rapid.T) c11mScenario {
 			sc.Ops = append(sc.Ops, c11mOp{Kind: "comment", Sil: rapid.IntRange(0, created-1).Draw(t, "sil"), Comment: rapid.SampledFrom([]string{"c1", "c2", "c3"}).Draw(t, "c")})
 		case k < 6:
 			sc.Ops = append(sc.Ops, c11mOp{Kind: "expire", Sil: rapid.IntRange(0, created-1).Draw(t, "sil")})
+		}
+		// one edit in four is made on a cluster peer instead and reaches this instance as gossip (a newer version of a
+		// silence this instance has written itself)
+		if last := &sc.Ops[len(sc.Ops)-1]; k >= 2 && k < 6 && rapid.IntRange(0, 3).Draw(t, "onPeer") == 0 {
+			last.Kind = "peer-" + last.Kind
+		}
+		switch {
+		case k < 6:
 		case k < 7:
 			op := c11mOp{Kind: "log", Key: rapid.IntRange(0, 2).Draw(t, "key"), Firing: rapid.IntRange(0, 3).Draw(t, "firing")}
 			if rapid.IntRange(0, 3).Draw(t, "merge") == 0 {
@@ -110,6 +118,7 @@ func execC11M(sc c11mScenario) (res pbt.Result) {
 	sizeLimited := false
 	farEnd := false
 	mergedOnly := false
+	peerEdited := false
 	synctest.Test(pbt.T(), func(*testing.T) {
 		compat.InitFromFlags(nopLog, featurecontrol.NoopFlags{})
 		ctx := context.Background()
@@ -133,6 +142,19 @@ func execC11M(sc c11mScenario) (res pbt.Result) {
 		}
 		var peerWire [][]byte
 		peer.SetBroadcast(func(b []byte) { peerWire = append(peerWire, append([]byte(nil), b...)) })
+		// ... and one that holds the same silences (it gets every broadcast of this instance) and edits them
+		silPeer, err := silence.New(silence.Options{Retention: ret, Logger: nopLog, Metrics: prometheus.NewRegistry(), EventRecorder: eventrecorder.NopRecorder(), Limits: limits})
+		if err != nil {
+			res.Fail("harness", "%v", err)
+			return
+		}
+		var silWire [][]byte
+		silPeer.SetBroadcast(func(b []byte) { silWire = append(silWire, append([]byte(nil), b...)) })
+		sil.SetBroadcast(func(b []byte) {
+			if err := silPeer.Merge(append([]byte(nil), b...)); err != nil {
+				res.Fail("harness", "silence peer Merge: %v", err)
+			}
+		})
 		stopc := make(chan struct{})
 		done := make(chan struct{}, 2)
 		iv := time.Duration(sc.Interval) * time.Second
@@ -205,6 +227,35 @@ func execC11M(sc c11mScenario) (res pbt.Result) {
 				if err := sil.Expire(ctx, ids[op.Sil%len(ids)]); err == nil {
 					lastChange = now
 				}
+			case "peer-extend", "peer-comment", "peer-expire":
+				id := ids[op.Sil%len(ids)]
+				silWire = silWire[:0]
+				if op.Kind == "peer-expire" {
+					if err := silPeer.Expire(ctx, id); err != nil {
+						continue
+					}
+				} else {
+					cur, err := silPeer.QueryOne(ctx, silence.QIDs(id))
+					if err != nil || now.After(cur.EndsAt.AsTime()) {
+						continue
+					}
+					n := proto.Clone(cur).(*pb.Silence)
+					if op.Kind == "peer-extend" {
+						n.EndsAt = timestamppb.New(now.Add(time.Duration(op.EndOff) * time.Second))
+					} else {
+						n.Comment = op.Comment
+					}
+					if err := silPeer.Set(ctx, n); err != nil || n.Id != cur.Id {
+						continue // (a replacing edit on the peer makes a silence this instance has not written: not this op's business)
+					}
+				}
+				for _, b := range silWire {
+					if err := sil.Merge(b); err != nil {
+						res.Fail("harness", "Merge of the peer's silence update: %v", err)
+					}
+				}
+				lastChange = now
+				peerEdited = true
 			case "log-unencodable":
 				before, _ := nfl.MarshalBinary()
 				st := nflog.NewStore(nil)
@@ -339,6 +390,9 @@ func execC11M(sc c11mScenario) (res pbt.Result) {
 	}
 	if mergedOnly {
 		res.Class("log-entry-received-from-a-peer")
+	}
+	if peerEdited {
+		res.Class("silence-edited-on-peer")
 	}
 	return res
 }
